@@ -266,7 +266,7 @@ func FieldOfTree(t *Tree) (field.Field, bool) {
 		default:
 			return nil, false
 		}
-		for _, k := range t.Kids[3:] {
+		for i, k := range t.Kids[3:] {
 			if k.Name != "sub" || len(k.Kids) != 2 {
 				return nil, false
 			}
@@ -275,10 +275,21 @@ func FieldOfTree(t *Tree) (field.Field, bool) {
 				return nil, false
 			}
 			spec.Subfields[k.Kids[0].Name] = sf
+			if i == 0 && len(t.Kids) > 4 {
+				// specs are also built bottom-up: a prototype made from the spec (as when it is placed
+				// into an outer spec) before the remaining subfields are added to its map. Nothing
+				// derived from the spec at that moment may stick to the spec.
+				earlyPrototype(spec)
+			}
 		}
 		return field.NewComposite(spec), true
 	}
 	return nil, false
+}
+
+func earlyPrototype(spec *field.Spec) {
+	defer func() { _ = recover() }()
+	_ = field.NewComposite(spec)
 }
 
 // SetValue populates a (fresh) field from the tree form of a value.
